@@ -554,6 +554,12 @@ func (p *Packer) Unpack(r io.Reader, dst string) error {
 			continue
 		}
 
+		// A PAX global header describes the entries after it, not a file: it
+		// leaves nothing in dst, and neither does the directory part of its name.
+		if header.Typeflag == tar.TypeXGlobalHeader {
+			continue
+		}
+
 		info, err := unpackinfo.NewUnpackInfo(dst, header)
 		if err != nil {
 			return &IllegalSlugError{Err: err}
